@@ -367,7 +367,8 @@ ObjPartItems(T, objs) ==
 (* behaviour).                                                              *)
 (* Recomputing a dictionary attribute replaces all its entries: what reads any entry is impacted as soon as  *)
 (* one entry is (ExplainableObject.values_replaced_together_with_me).                                       *)
-SiblingEntries(R, X) == {s \in DOMAIN R : \E x \in X : x[3] # NoKey /\ s[1] = x[1] /\ s[2] = x[2]}
+SiblingClosure == TRUE      \* a configuration may override it with FALSE to obtain the behaviour before repair 4d00801
+SiblingEntries(R, X) == IF SiblingClosure THEN {s \in DOMAIN R : \E x \in X : x[3] # NoKey /\ s[1] = x[1] /\ s[2] = x[2]} ELSE {}
 RECURSIVE Descend(_, _)
 Descend(R, X) ==
     LET N == X \cup {s \in DOMAIN R : R[s] \cap X # {}} \cup SiblingEntries(R, X)
@@ -441,6 +442,32 @@ StaleAfter(T, T2, changes, staleBefore, jfn, Canonical) ==
         pos == ChainPositions(T, changes, jfn, Canonical)
         start == A \cup (staleBefore \cap DOMAIN R2)
     IN  RunChain(T2, R2, start, pos, {pos[it] : it \in DOMAIN pos})
+
+(* ---- the recorded graph after an update -------------------------------------------------------------------- *)
+(* NoStale alone does not carry an induction over histories: a slot can be numerically fresh while the value object  *)
+(* it holds still lists a SUPERSEDED value object among its ancestors (its parent was recomputed -- a new object --   *)
+(* and it was not).  Such a slot is out of reach of the next update.  "dirty" = slots whose recorded ancestors        *)
+(* contain a superseded object: a slot becomes dirty when something it reads is replaced (a changed input, a          *)
+(* recomputed item -- ALL entries of a recomputed dictionary are new objects) and clean when it is itself recomputed. *)
+(* SIB = FALSE models the behaviour before repair 4d00801 (only the children of the entries that depend on the        *)
+(* changed input were recomputed).                                                                                    *)
+RecomputeTok(T2, R2, dirty, items) ==
+    LET slots == UNION {SlotsOfItem(T2, it[1], it[2]) : it \in items} \cap DOMAIN R2
+    IN  (dirty \ slots) \cup {s \in DOMAIN R2 \ slots : R2[s] \cap slots # {}}
+RECURSIVE RunChainTok(_, _, _, _, _)
+RunChainTok(T2, R2, dirty, pos, todo) ==
+    IF todo = {} THEN dirty
+    ELSE LET p == CHOOSE x \in todo : \A y \in todo : x <= y
+             items == {it \in DOMAIN pos : pos[it] = p /\ it[1] \in AllObjs(T2)}
+         IN  RunChainTok(T2, R2, RecomputeTok(T2, R2, dirty, items), pos, todo \ {p})
+DirtyAfter(T, T2, changes, jfn, Canonical) ==
+    LET CI == {changes[i].slot : i \in {k \in DOMAIN changes : changes[k].kind = "input"}}
+        R == ReadsMap(T)
+        R2 == ReadsMap(T2)
+        pos == ChainPositions(T, changes, jfn, Canonical)
+        start == {s \in DOMAIN R2 : R2[s] \cap CI # {}} \cup {s \in DOMAIN R2 \cap DOMAIN R : R2[s] # R[s]}
+                 \cup (DOMAIN R2 \ DOMAIN R)
+    IN  RunChainTok(T2, R2, start, pos, {pos[it] : it \in DOMAIN pos})
 
 (* same, but following a chain observed in the implementation *)
 StaleAfterObserved(T, T2, changes, staleBefore, seq) ==
